@@ -503,6 +503,7 @@ type Contract struct {
 	AimAlso []Clause // other State objects (never touched by CheckTx) that may be used directly
 	AimExempt []string // store types (pkg.Type) whose aim is not the deliver state by design
 	AimExemptWhy string
+	IterTag  string // tag of the `iterator` line (obligations of a proved iterator: iter-stop)
 	OpaqueArith bool // products/quotients of two non-literal operands become uninterpreted (sign facts only) in this body's queries
 	DynPure  bool // dynamic calls without static callee in this body are assumed to modify nothing
 	FrameTag string
@@ -819,6 +820,7 @@ func ParseContractFile(path, pkg string) (*ContractFile, error) {
 		case "iterator":
 			if cur != nil {
 				cur.Iterator = true
+				_, cur.IterTag = splitTag(rest)
 			}
 		case "count":
 			if cur == nil {
